@@ -82,7 +82,7 @@ impl Binder {
                 }
                 Ok(id)
             }
-            _ => panic!("bind table ref"),
+            factor => Err(ErrorKind::Todo(format!("table factor {factor}")).into()),
         }
     }
 
@@ -124,7 +124,7 @@ impl Binder {
                 let condition = self.bind_join_constraint(constraint)?;
                 Ok((ty, condition))
             }
-            op => todo!("unsupported join operator: {op:?}"),
+            op => Err(ErrorKind::Todo(format!("join operator {op:?}")).into()),
         }
     }
 
@@ -132,7 +132,7 @@ impl Binder {
         match constraint {
             JoinConstraint::On(expr) => self.bind_expr(expr),
             JoinConstraint::None => Ok(self.egraph.add(Node::true_())),
-            _ => todo!("Support more join constraints"),
+            c => Err(ErrorKind::Todo(format!("join constraint {c:?}")).into()),
         }
     }
 
